@@ -162,6 +162,14 @@ def derive(cls, term, leaf, depth=0):
                 return None
             r = derive(cls, args[0], leaf, depth + 1)
             return None if r is None else r + off
+        # a workspace helper whose own return value is derived from a leaf (e.g. `fn local_watermark(&self, p) -> u64
+        # { self.watermarks.get(&p).map(|w| w.get()).unwrap_or(0) }`): the callee's return expression is inspected, its
+        # parameters are opaque, so a value passed INTO the helper still does not make the result a class member
+        if name in cls.prog.bodies and depth < 8:
+            cb = cls.prog.bodies[name]
+            if not getattr(cb, "coroutine", False) and len(cb.blocks) <= 60:
+                r = derive(cls, cls.closure_return(name), leaf, depth + 3)
+                return None if r is None else r + off
         return None
     if k in ("variant", "field", "index", "partial"):
         r = derive(cls, base[1], leaf, depth + 1)
@@ -298,6 +306,51 @@ def switch_on(body, block, lhs_local):
     if neg:
         tr, fa = fa, tr
     return tr, fa
+
+
+def implied_true_edges(body, block, lhs_local):
+    """CFG edges whose traversal implies that the bool `lhs_local` (computed in `block`) was true: the direct switch on it, plus
+    the true edge of every switch on a bool local L all of whose definitions are `false` or a copy of `lhs_local`
+    (the `let ok = a && b; if ok { .. }` shape). Only true edges are returned: L == false says nothing about lhs_local."""
+    from .facts import op_place
+    out = []
+    sw = switch_on(body, block, lhs_local)
+    if sw:
+        out.append((block, sw[0]))
+    # the comparison itself may be assigned to the user's bool (`ok = a <= b` on one path, `ok = false` on the other)
+    own = [d for d in body.defs.get(lhs_local, []) if not d[2]["p"]]
+    if len(own) >= 2:
+        others = [d for d in own if not (d[0] == block and d[3].get("k") == "bin")]
+        if len(others) == len(own) - 1 and all(d[3].get("k") == "use" and "c" in d[3]["op"] and "false" in str(d[3]["op"].get("c")) for d in others):
+            for sb, blk in enumerate(body.blocks):
+                if sb != block and blk["t"]["k"] == "switch":
+                    s2 = switch_on(body, sb, lhs_local)
+                    if s2:
+                        out.append((sb, s2[0]))
+    for L, defs in body.defs.items():
+        ds = [d for d in defs if not d[2]["p"]]
+        if len(ds) < 2 or L == lhs_local:
+            continue
+        ok, srcs = True, 0
+        for (bi, si, lhs, rv) in ds:
+            if rv.get("k") == "use":
+                op = rv["op"]
+                if "c" in op and "false" in str(op.get("c")):
+                    continue
+                p = op_place(op)
+                if p is not None and not p["p"] and p["l"] == lhs_local:
+                    srcs += 1
+                    continue
+            ok = False
+            break
+        if not ok or not srcs:
+            continue
+        for sb, blk in enumerate(body.blocks):
+            if blk["t"]["k"] == "switch":
+                s2 = switch_on(body, sb, L)
+                if s2:
+                    out.append((sb, s2[0]))
+    return out
 
 
 def edge_dominates(body, src, dst, target_block):
